@@ -18,6 +18,7 @@ def ref_tasks(prop, tier, seed, kf):
         import contracts.body_refs as cbr
         engine_b.discharge(r, kf, [cr.add_dependencies_contract(), cr.parameter_from_reference_contract(),
                                    cr.parameter_from_data_contract(), cr.update_parameters_contract(), cr.update_schemas_contract(),
+                                   cr.parse_reference_path_contract(),
                                    __import__("contracts.add_parameters", fromlist=["x"]).add_parameters_contract(),
                                    __import__("contracts.responses_c", fromlist=["x"]).response_contract(),
                                    cbr.resolve_contract()], prop, tier, seed)
@@ -33,7 +34,7 @@ def run(rep, kf, tier, seed):
     import contracts.resolvers as rs
     rs.discharge(rep, kf, "C20", tier, seed)
     from props.common import run_bounded
-    run_bounded(rep, kf, "C20", ["body_refs"], tier)
+    run_bounded(rep, kf, "C20", ["body_refs", "reference_strings"], tier)
     rep.trusted.extend(["CPython semantics of the supported subset as encoded in pyvc.symexec",
                         "lazily materialised symbolic dictionaries (pyvc.absdata.LazyMap) for tables of unknown content",
                         "convert_value by summary (C13); parse_reference_path by summary inside _property_from_ref (own contract below)",
